@@ -1185,20 +1185,22 @@ func findInjectorBuild(info *types.Info, fn *ast.FuncDecl) (*ast.CallExpr, error
 			if numStatements > 1 {
 				invalid = true
 			}
-			call, ok := stmt.X.(*ast.CallExpr)
+			// Parentheses around the call, around panic's argument or around
+			// the function name are legal Go and change nothing.
+			call, ok := astutil.Unparen(stmt.X).(*ast.CallExpr)
 			if !ok {
 				continue
 			}
-			if qualifiedIdentObject(info, call.Fun) == types.Universe.Lookup("panic") {
+			if qualifiedIdentObject(info, astutil.Unparen(call.Fun)) == types.Universe.Lookup("panic") {
 				if len(call.Args) != 1 {
 					continue
 				}
-				call, ok = call.Args[0].(*ast.CallExpr)
+				call, ok = astutil.Unparen(call.Args[0]).(*ast.CallExpr)
 				if !ok {
 					continue
 				}
 			}
-			buildObj := qualifiedIdentObject(info, call.Fun)
+			buildObj := qualifiedIdentObject(info, astutil.Unparen(call.Fun))
 			if buildObj == nil || buildObj.Pkg() == nil || !isWireImport(buildObj.Pkg().Path()) || buildObj.Name() != "Build" {
 				continue
 			}
